@@ -257,13 +257,17 @@ PROPS = {
                        "arr_body / elems_end / obj_body / members_end with the 128-container cap) is defined at the current offset, and "
                        "then stops exactly at the offset that function gives; the top-level obligation is "
                        "`validate(input).is_ok() == json_text(input)` for every byte string (json_text = ws value ws covering the whole "
-                       "input, nesting depth counted per open container, refused beyond 128). Termination of the mutually recursive "
+                       "input, nesting depth counted per open container, refused beyond 128). Every function also carries the position invariant "
+                       "(line == 1 + number of LF / CR LF / CR terminators before the offset, column == 1 + bytes since the last one, the "
+                       "offset never sits between a CR and its LF), so every Err returned -- including the rewound keyword position -- has "
+                       "offset <= len and the line / column of that offset (third sentence of the property). Termination of the mutually recursive "
                        "validator is proved (lexicographic measure: remaining bytes, then call-graph rank). The grammar spec is checked "
                        "against concrete accept/reject documents by `by (compute)` so it is neither vacuous nor trivial.",
         "trusted_base": COMMON_TRUST + ["Verus 0.2026.09.13 + Z3", "the spec functions in verus/c08_validate.toml are the reading of RFC 8259 sections 2-7 and of Unicode Table 3-7 used as the oracle"],
         "assumptions": ["rule E1: error payloads dropped (`self.error(Kind{..})` -> position-only error); WHICH error kind is reported is not under contract",
                         "second sentence of the property (error offset not beyond the longest viable prefix) is NOT decided: it needs a constructive "
-                        "completion argument for every viable prefix that was not built; only `offset <= len` is proved for error positions",
+                        "completion argument for every viable prefix that was not built; for error positions only `offset <= len` and line/column == those of the offset are proved",
+                        "line/column meaning used: terminators LF, CR LF (one), lone CR; columns count bytes (what Position documents)",
                         "keyword / number lookahead: the spec rejects `nullx` / `01` at the token (as the code does) instead of at the following "
                         "byte; both readings reject the same documents because no JSON text continues a literal with a letter or a number 0 with a digit",
                         "input.len() <= 2^62; usize is 64 bits",
